@@ -308,6 +308,12 @@ func (x *world) stepProc(p string) string {
 		}
 	}
 	rep := x.s.Step(p)
+	return x.absorb(p, rep)
+}
+
+// absorb folds the report ending a step of p into the harness state.
+func (x *world) absorb(p string, rep sched.Report) string {
+	ps := x.procs[p]
 	x.digest()
 	if rep.Stuck {
 		x.nStuck++
@@ -401,9 +407,40 @@ func (x *world) crash(applied bool) bool {
 	return x.startGen() == nil
 }
 
+// settle waits (generously) for requests that are neither parked at a yield point
+// nor finished: a step that outlived the scheduler's watchdog is still running, or
+// blocked inside the implementation. Returns true when one of them reported.
+func (x *world) settle() bool {
+	progress := false
+	for _, p := range sortedKeys(x.procs) {
+		ps := x.procs[p]
+		if ps.req.Gen != x.gen || !ps.started || ps.returned {
+			continue
+		}
+		if _, parked, _ := x.s.State(p); parked {
+			continue
+		}
+		// running, blocked, or finished with a report nobody consumed yet
+		if rep, ok := x.s.TryAwait(p, 2*time.Second); ok {
+			x.absorb(p, rep)
+			progress = true
+		}
+	}
+	return progress
+}
+
 // drain completes the execution after the schedule ended: persist whatever is
 // at the gate, move every request that can move, until nothing changes.
 func (x *world) drain() {
+	for i := 0; i < 4; i++ {
+		x.drainOnce()
+		if !x.settle() {
+			return
+		}
+	}
+}
+
+func (x *world) drainOnce() {
 	for round := 0; round < 400; round++ {
 		progress := false
 		if x.atGate != nil {
@@ -464,6 +501,27 @@ func (x *world) restartAndProbe() {
 			x.stepProc(p)
 		}
 	}
+}
+
+// endLine reports what is left behind once nothing moves any more: locks and
+// reservations still held, requests that never got an answer.
+func (x *world) endLine() map[string]any {
+	snap := command.VerifLockerSnapshot(x.locker)
+	locks := len(snap.Write) + len(snap.Queued)
+	for _, n := range snap.Read {
+		locks += int(n)
+	}
+	unanswered := []string{}
+	for _, p := range sortedKeys(x.procs) {
+		ps := x.procs[p]
+		if ps.req.Gen == x.gen && ps.started && !ps.returned {
+			unanswered = append(unanswered, p)
+		}
+	}
+	if x.atGate != nil {
+		unanswered = append(unanswered, "batch-at-gate")
+	}
+	return map[string]any{"ev": "end", "locks": locks, "refs": len(command.VerifReferencerKeys(x.refr)), "unanswered": unanswered}
 }
 
 func (x *world) close() {
